@@ -2,7 +2,10 @@ module vharness
 
 go 1.21
 
-require github.com/smhanov/syzgydb v0.0.0
+require (
+	github.com/anishathalye/porcupine v1.3.0
+	github.com/smhanov/syzgydb v0.0.0
+)
 
 require (
 	github.com/NYTimes/gziphandler v1.1.1 // indirect
